@@ -514,10 +514,10 @@ Lemma rep_go_stop_ok e body ne d L foe : in_class G e = true -> in_class G body 
 Proof.
   intros He Hb Hne HK. destruct (in_class_plain e He) as [_ Hi].
   induction n as [|n IHn]; intros loc acc; [reflexivity|].
-  cbn [rep_go peg_star_stop]. unfold check_ender, try_parse, call. cbn [run].
+  cbn [rep_go peg_star_stop]. rewrite Hi. rewrite skip_ignorables_nil. unfold check_ender, try_parse, call. cbn [run].
   destruct (IH ne Hne loc false) as [N1 _]. unfold good in N1.
   destruct (pparse f (mkargs ne s loc false true)) as [[nl nr|nx|]|]; simpl in N1.
-  - injection N1 as <-. rewrite Hi. rewrite skip_ignorables_nil. unfold call. cbn [run].
+  - injection N1 as <-. unfold call. cbn [run].
     destruct (IH body Hb loc d) as [H1 _]. unfold good in H1.
     destruct (pparse f (mkargs body s loc d true)) as [[l r|x|]|]; simpl in H1.
     + injection H1 as <-. destruct (Nat.eqb l loc); [reflexivity|]. rewrite <- as_list_iadd. apply IHn.
